@@ -2541,15 +2541,26 @@ def chain_steps(F, t):
 
 
 def proj_simplify(t):
-    """field k of a literal tuple is its k-th component"""
+    """field k of a literal tuple is its k-th component; a tuple rebuilt from all components of x in order, (x.0, x.1, .., x.n)
+    with n >= 1, is x (a destructured and re-assembled triple is the triple)"""
     def f(x):
         if x[0] == "field" and isinstance(x[1], tuple) and str(x[2]).isdigit():
             b = rewrite(x[1], f)
             if b[0] == "tuple" and int(x[2]) < len(b[1]):
                 return b[1][int(x[2])]
             return ("field", b, x[2])
+        if x[0] == "tuple" and len(x[1]) >= 2:
+            comps = [rewrite(c, f) for c in x[1]]
+            if all(c[0] == "field" and str(c[2]) == str(i) for i, c in enumerate(comps)) and len({c[1] for c in comps}) == 1 and _tuple_arity(comps[0][1]) in (None, len(comps)):
+                return comps[0][1]
+            return ("tuple", tuple(comps))
         return None
     return rewrite(t, f)
+
+
+def _tuple_arity(t):
+    """number of components when the term is known to be a tuple of that size (a literal), None when unknown"""
+    return len(t[1]) if t[0] == "tuple" else None
 
 # --------------------------------------------------------------------------
 # control-flow helpers used by path rules
